@@ -526,6 +526,10 @@ func (this *Writer) Write(block []byte) (int, error) {
 		return 0, &IOError{msg: "Stream closed", code: kanzi.ERR_WRITE_FILE}
 	}
 
+	if atomic.LoadInt32(&this.blockID) == _CANCEL_TASKS_ID {
+		return 0, &IOError{msg: "Stream in error state: a previous block could not be written", code: kanzi.ERR_WRITE_FILE}
+	}
+
 	off := 0
 	remaining := len(block)
 
@@ -619,6 +623,13 @@ func (this *Writer) Close() error {
 }
 
 func (this *Writer) processBlock() error {
+	if atomic.LoadInt32(&this.blockID) == _CANCEL_TASKS_ID {
+		// A previous block could not be encoded or written: the bitstream is
+		// incomplete and must never be reported as successfully written
+		this.available = 0
+		return &IOError{msg: "Stream in error state: a previous block could not be written", code: kanzi.ERR_WRITE_FILE}
+	}
+
 	if err := this.writeHeader(); err != nil {
 		return err
 	}
